@@ -154,6 +154,32 @@ def finish (s : St) : String :=
             let fl := (c.ft.descendantForPoints 0 sp ep (!anon)).map fun j => (c.ft.node j).info.id
             if fl != some exp.id then pflat := pflat + 1
       return (nchk, nbad, nflat, pchk, pbad, pflat)
+    -- descendant_for_empty_byte_range_spec: EMPTY ranges [x, x] from the root, x = start / end of every node, both flags:
+    -- hypothesis emptyOK; conclusion port = dfrIdealE = FT.descendantForBytes 0 x x
+    let edfr := Id.run do
+      let mut chk := 0
+      let mut out := 0
+      let mut bad := 0
+      let mut slack := 0
+      let fuel := d.root.size + 1
+      let mut seen : Std.HashSet Nat := {}
+      for h : k in [0:c.ft.size] do
+        for x in [c.ft.sb k, c.ft.eb k] do
+          if seen.contains x then continue
+          seen := seen.insert x
+          if !(emptyOK lang x d.root rootRef.start) then
+            out := out + 1
+            -- is the hypothesis exact here?  (outside AND the anonymous search still agrees with the ordered tree)
+            let got := (descendantForByteRangePort lang fuel rootRef x x true).map (·.id)
+            let fl := (c.ft.descendantForBytes 0 x x false).map fun j => (c.ft.node j).info.id
+            if got == fl then slack := slack + 1
+          else
+            for anon in [true, false] do
+              let got := (descendantForByteRangePort lang fuel rootRef x x anon).map (·.id)
+              let ideal := (dfrIdealE lang anon x fuel rootRef rootRef).id
+              let fl := (c.ft.descendantForBytes 0 x x (!anon)).map fun j => (c.ft.node j).info.id
+              if got == some ideal && fl == some ideal then chk := chk + 1 else bad := bad + 1
+      return (chk, out, bad, slack)
     -- child_by_field_id_spec_partial for every entry and every field of the language: premise cbfOK;
     -- conclusion port = cbfSpec; cbfSpec = FT.childByField
     let cbf := Id.run do
@@ -196,7 +222,7 @@ def finish (s : St) : String :=
         let flat := (c.ft.prevSibling j true).map fun i => ((c.ft.node i).info.raw.data, (c.ft.node i).info.alias)
         if decide (flat = exp) then n else n + 1
       | none => n + 1
-    s!"{s.id} corr={r.corrFails.render} judge={r.fails.render} asked={r.asked} ported={r.portCompared} vis={c.ft.size} raw={js.rawNodes} fanout={s.fanout} hiddenvis={js.hiddenWithVisible} alias={js.aliases} extra={js.extras} err={js.errors} missing={js.missing} zerowidth={js.zeroWidth} multiline={js.multiline} fields={fields} sexpok={if (sexpOKKids lang d.root.kids d.root.data.productionId 0 || hasHiddenMissing lang d.root 0) && !(lang.symMeta 0).visible then 1 else 0} stackbad={r.stackBad} anonleafok={if anonLeafOKKids lang d.root.kids d.root.data.productionId 0 then 1 else 0} hiddenextraok={if hiddenExtraOKKids lang d.root.kids d.root.data.productionId 0 then 1 else 0} hiddenmissing={if hasHiddenMissing lang d.root 0 then 1 else 0} parchk={ph.checked} parzw={ph.zeroWidth} parbad={ph.bad} parflat={flatBad} nschk={sh.checked} nsout={sh.outside} nsbad={sh.bad} nsflat={nsFlatBad} pschk={sh.pchecked} psout={sh.poutside} psbad={sh.pbad} psflat={psFlatBad} fcbchk={fcb.1} fcbout={fcb.2.1} fcbbad={fcb.2.2.1} fcbflat={fcb.2.2.2} dfrchk={dfr.1} dfrbad={dfr.2.1} dfrflat={dfr.2.2} nfcbchk={nfcb.1} nfcbout={nfcb.2.1} nfcbbad={nfcb.2.2.1} nfcbflat={nfcb.2.2.2} ndfrchk={vdfr.1} ndfrbad={vdfr.2.1} ndfrflat={vdfr.2.2.1} pdfrchk={vdfr.2.2.2.1} pdfrbad={vdfr.2.2.2.2.1} pdfrflat={vdfr.2.2.2.2.2} cbfchk={cbf.1} cbfout={cbf.2.1} cbfbad={cbf.2.2.1} cbfflat={cbf.2.2.2.1} cbfskip={cbf.2.2.2.2} fmsorted={if (s.sorted.get? s.lang).getD false then 1 else 0} cfcchk={r.cfcChk} cfcout={r.cfcOut} cfcbad={r.cfcBad} cfcflat={r.cfcFlat} cparchk={r.cparChk} cparbad={r.cparBad} nnschk={sh.nnchecked} nnsout={sh.nnoutside} nnsbad={sh.nnbad} nnsflat={nnFlatBad} npschk={sh.npchecked} npsout={sh.npoutside} npsbad={sh.npbad} npsflat={npFlatBad} znschk={sh.zchecked} znsout={sh.zoutside} znsbad={sh.zbad} zpschk={sh.zpchecked} zpsout={sh.zpoutside} zpsbad={sh.zpbad} pgenbad={sh.pgenbad} znsoutpar={sh.zwhy.1} znsoutfollow={sh.zwhy.2.1} znsoutzw={sh.zwhy.2.2.1} zpsoutpar={sh.zwhy.2.2.2.1} zpsoutid={sh.zwhy.2.2.2.2.1} zpsoutzw={sh.zwhy.2.2.2.2.2} kind={s.kind}"
+    s!"{s.id} corr={r.corrFails.render} judge={r.fails.render} asked={r.asked} ported={r.portCompared} vis={c.ft.size} raw={js.rawNodes} fanout={s.fanout} hiddenvis={js.hiddenWithVisible} alias={js.aliases} extra={js.extras} err={js.errors} missing={js.missing} zerowidth={js.zeroWidth} multiline={js.multiline} fields={fields} sexpok={if (sexpOKKids lang d.root.kids d.root.data.productionId 0 || hasHiddenMissing lang d.root 0) && !(lang.symMeta 0).visible then 1 else 0} stackbad={r.stackBad} anonleafok={if anonLeafOKKids lang d.root.kids d.root.data.productionId 0 then 1 else 0} hiddenextraok={if hiddenExtraOKKids lang d.root.kids d.root.data.productionId 0 then 1 else 0} hiddenmissing={if hasHiddenMissing lang d.root 0 then 1 else 0} parchk={ph.checked} parzw={ph.zeroWidth} parbad={ph.bad} parflat={flatBad} nschk={sh.checked} nsout={sh.outside} nsbad={sh.bad} nsflat={nsFlatBad} pschk={sh.pchecked} psout={sh.poutside} psbad={sh.pbad} psflat={psFlatBad} fcbchk={fcb.1} fcbout={fcb.2.1} fcbbad={fcb.2.2.1} fcbflat={fcb.2.2.2} dfrchk={dfr.1} dfrbad={dfr.2.1} dfrflat={dfr.2.2} nfcbchk={nfcb.1} nfcbout={nfcb.2.1} nfcbbad={nfcb.2.2.1} nfcbflat={nfcb.2.2.2} ndfrchk={vdfr.1} ndfrbad={vdfr.2.1} ndfrflat={vdfr.2.2.1} pdfrchk={vdfr.2.2.2.1} pdfrbad={vdfr.2.2.2.2.1} pdfrflat={vdfr.2.2.2.2.2} cbfchk={cbf.1} cbfout={cbf.2.1} cbfbad={cbf.2.2.1} cbfflat={cbf.2.2.2.1} cbfskip={cbf.2.2.2.2} fmsorted={if (s.sorted.get? s.lang).getD false then 1 else 0} cfcchk={r.cfcChk} cfcout={r.cfcOut} cfcbad={r.cfcBad} cfcflat={r.cfcFlat} cparchk={r.cparChk} cparbad={r.cparBad} edfrchk={edfr.1} edfrout={edfr.2.1} edfrbad={edfr.2.2.1} edfrslack={edfr.2.2.2} nnschk={sh.nnchecked} nnsout={sh.nnoutside} nnsbad={sh.nnbad} nnsflat={nnFlatBad} npschk={sh.npchecked} npsout={sh.npoutside} npsbad={sh.npbad} npsflat={npFlatBad} znschk={sh.zchecked} znsout={sh.zoutside} znsbad={sh.zbad} zpschk={sh.zpchecked} zpsout={sh.zpoutside} zpsbad={sh.zpbad} pgenbad={sh.pgenbad} znsoutpar={sh.zwhy.1} znsoutfollow={sh.zwhy.2.1} znsoutzw={sh.zwhy.2.2.1} zpsoutpar={sh.zwhy.2.2.2.1} zpsoutid={sh.zwhy.2.2.2.2.1} zpsoutzw={sh.zwhy.2.2.2.2.2} kind={s.kind}"
   | _, _, _ => s!"{s.id} corr=BADINPUT judge=BADINPUT asked=0"
 
 def step (s : St) (line : String) : IO St := do
@@ -226,9 +252,9 @@ def step (s : St) (line : String) : IO St := do
     let measured := fields.filterMap fun f => match f.splitOn "=" with
       | [k, v] => v.toNat?.map fun n => (k, n)
       | _ => none
-    let bad := cursorWidthFails measured
+    let bad := wideProbeFails measured
     let corr := if bad.isEmpty then "ok" else "FAIL tie:cursor-index-widths :: tie:cursor-index-widths: " ++ ", ".intercalate bad
-    IO.println s!"cwidths-0 corr={corr} judge=ok asked=0 cwidthcase=1 measured={measured.length} assumed={assumedCursorBits.length} kind=cwidths"
+    IO.println s!"cwidths-0 corr={corr} judge=ok asked=0 cwidthcase=1 measured={measured.length} assumed={(wideProbeExpected 0).length + 2} kind=cwidths"
     return s
   | ["deflang", id] => return { s with mode := 1, defId := id, defLang := {} }
   | ["case", id] => return { langs := s.langs, sorted := s.sorted, id := id }
